@@ -27,11 +27,22 @@ Clause -> case family
   destination does not change the document        every case exports to all three destinations (path with
                                                   .eds/.dcf suffix - doc type inferred or given -, StringIO +
                                                   doc_type, None -> captured sys.stdout); the documents must
-                                                  be identical once [FileInfo] (time stamps) is removed; the
-                                                  case picks which one is re-imported
+                                                  be identical character by character (files are read back
+                                                  without newline translation) once the four date/time values
+                                                  of [FileInfo] are masked; the case picks which one is
+                                                  re-imported.  File names: absolute, a bare name in the
+                                                  current directory, a relative path, a name with several
+                                                  dots, a name whose directory and stem contain the suffix of
+                                                  the OTHER document type (drive.dcf.d/x.dcf.eds)
+  values outside the short pools ("extras")       hyp + enum/extras: factor = any finite float (7+ significant
+                                                  digits), description without unit, storage location = any
+                                                  word (mixed / lower case) on variables, members, records and
+                                                  arrays, LowLimit/HighLimit on REAL32/REAL64 (bit-exact),
+                                                  DCF bit rate = any multiple of 1000 bit/s (1..1000 kbit/s)
 """
 import contextlib
 import io
+import math
 import os
 from collections import Counter
 
@@ -45,27 +56,41 @@ from harness.core import Discrepancy, Outcome
 PROPERTY = "C14"
 LEVEL = "exploration"
 RULE = ("case = (abstract dictionary model, route code|text, document type eds|dcf, destination that is "
-        "re-imported: path with inferred doc type | path with explicit doc type | StringIO | stdout; a path with "
-        "several dots in directory and file name is written too). Code-built dictionaries may then have every "
+        "re-imported: path with inferred doc type | path with explicit doc type | StringIO | stdout; also written: "
+        "a path with several dots in directory and file name, a path whose directory and stem carry the suffix "
+        "of the other document type (drive.dcf.d/x.dcf.eds), a bare file name in the current directory and a "
+        "relative path). Code-built dictionaries may then have every "
         "default / parameter value changed and be exported and imported a second time. "
-        "Models have 1..4 objects (VAR/DOMAIN/ARRAY/RECORD of 1..20 members) over 0x1000..0x9FFF, all 23 "
+        "Models have 1..5 objects (VAR/DOMAIN/ARRAY/RECORD of 1..20 members) over 0x1000..0x9FFF, all 23 "
         "data types, defaults / parameter values / limits at the range ends of every integer width incl. "
         "negative ones, REAL/string/byte defaults, storage location, factor/unit/description, device "
-        "information, baud rates, comments, node id 1..127, CiA bit rates. Oracle: attribute-wise equality "
+        "information, baud rates, comments, node id 1..127, CiA bit rates. On top of the shared model generator "
+        "0..5 drawn 'extras' replace pool values: factor = any finite float, description independent of unit, "
+        "storage location = any word of letters/digits/'_' in any letter case (variables, members, records, "
+        "arrays), float LowLimit/HighLimit on REAL32/REAL64 objects, DCF bit rate = any 1..1000 kbit/s; the "
+        "family enum/extras enumerates long-mantissa factors, REAL limit pairs, mixed-case storage words and "
+        "non-CiA bit rates in both routes. Oracle: attribute-wise equality "
         "of import_od(export_od(od)) with a snapshot of od taken before the export (DCF additionally value, "
-        "bit rate, node id) + the three destinations give the same document modulo [FileInfo]. "
+        "bit rate, node id; REAL limits and REAL defaults bit-exact) + all destinations give the same document, "
+        "character by character incl. line ends, once the values of CreationDate/CreationTime/ModificationDate/"
+        "ModificationTime in [FileInfo] are masked. "
         "Non-trivial = dictionary with a negative default/parameter value, a limit on an odd-width integer, "
         "a record or a relative default; distinct = canonical JSON of the case.")
 ASSUMPTIONS = [
     "texts (names, string defaults, unit, description, comments, device info) are ASCII without ';' '#' '$', "
     "line breaks or leading/trailing blanks (the INI carrier strips blanks and treats ' ;' as a comment)",
-    "access types are lower case; limits only on integer types and inside the type's range; storage "
-    "location is None or a non-empty word; node id 1..127; bit rate one of the 8 CiA rates",
+    "access types are lower case; limits only on integer and REAL types and inside the type's range (REAL "
+    "limits are finite floats); storage location is None or a non-empty word of letters, digits and '_'; "
+    "node id 1..127; bit rate a multiple of 1000 bit/s between 1 and 1000 kbit/s; factor a finite float",
     "an EDS cannot carry the node id: the EDS is re-imported with node_id=od.node_id so that $NODEID "
     "defaults resolve as before; the DCF is re-imported without argument",
     "route text: when import_od did not record the explicitly given node id (no [DeviceComissioning] in "
     "the source) the harness sets od.node_id itself before exporting",
-    "[FileInfo] is not compared (time stamps; export_eds' mutable default argument leaks keys between calls)",
+    "[FileInfo] of the re-imported dictionary is not compared; between the destinations of one case only the "
+    "values of its four date/time keys are masked (export_eds' mutable default argument leaks keys between "
+    "calls, but identically for every destination of one dictionary)",
+    "run_case changes the current directory to the scratch directory while it exports to relative file names "
+    "and restores it afterwards",
     "compact arrays of a model are built in code as arrays with explicit members (at most 20)",
 ]
 BUDGET = {"quick": 150, "thorough": 240}
@@ -187,7 +212,13 @@ def _cmp_var(D, where, a, b, dcf):
             ok = _same(dt, x, y)
             attr_sig = "default/negative" if isinstance(x, int) and not isinstance(x, bool) and x < 0 else "default"
         elif attr in ("min", "max"):
-            ok = (x is None and y is None) or (isinstance(y, int) and not isinstance(y, bool) and x == y)
+            if x is None or y is None:
+                ok = x is None and y is None
+            elif dt in rc.REALS:
+                # a limit of a REAL object is a float; the same limit = the same float, bit for bit
+                ok = isinstance(y, float) and rc.float_bits_equal(float(x), y)
+            else:
+                ok = isinstance(y, int) and not isinstance(y, bool) and x == y
             attr_sig = "limit/" + attr
         elif attr == "pdo_mappable":
             ok = bool(x) == bool(y) and isinstance(y, (bool, int))
@@ -246,41 +277,89 @@ def compare(D, before, after, dcf):
 
 
 # ---- documents ---------------------------------------------------------------------
-def strip_fileinfo(text):
-    out, skip = [], False
-    for line in text.splitlines():
+TIME_KEYS = ("CreationDate", "CreationTime", "ModificationDate", "ModificationTime")
+
+
+def doc_lines(text, fileinfo=True):
+    """The document as a list of lines (split at LF only, so a CR stays visible) with the values of the
+    four date/time keys of [FileInfo] masked; fileinfo=False drops the whole section."""
+    out, inside = [], False
+    for line in text.split("\n"):
         s = line.strip()
         if s.startswith("[") and s.endswith("]"):
-            skip = s == "[FileInfo]"
-        if not skip:
+            inside = s == "[FileInfo]"
+        elif inside and "=" in line:
+            key = line.split("=", 1)[0].strip()
+            if key in TIME_KEYS:
+                line = key + " = <time>" + ("\r" if line.endswith("\r") else "")
+        if fileinfo or not inside:
             out.append(line)
-    return "\n".join(out)
+    return out
+
+
+def strip_fileinfo(text):
+    return "\n".join(doc_lines(text, fileinfo=False))
+
+
+def destination_difference(ref_text, text):
+    """None when both documents are the same, else (signature suffix, first difference)."""
+    a, b = doc_lines(ref_text), doc_lines(text)
+    if a == b:
+        return None
+    first = next((f"{x!r} vs {y!r}" for x, y in zip(a, b) if x != y), f"{len(a)} vs {len(b)} lines")
+    if [x.rstrip("\r") for x in a] == [y.rstrip("\r") for y in b]:
+        return "/line-ends", first
+    if doc_lines(ref_text, False) == doc_lines(text, False):
+        return "/fileinfo", first
+    return "", first
+
+
+def _read_raw(path):
+    with open(path, newline="") as f:          # no newline translation: the document as it is in the file
+        return f.read()
 
 
 def export_all(od, doc):
-    """-> {destination kind: document text}, path of the file written last"""
+    """-> {destination kind: document text}, paths of the files that may be re-imported"""
     import canopen
     docs = {}
-    path = os.path.join(scratch_dir(), f"{os.getpid()}-exp.{doc}")
+    pid = os.getpid()
+    path = os.path.join(scratch_dir(), f"{pid}-exp.{doc}")
     canopen.export_od(od, path)
-    with open(path) as f:
-        docs["path"] = f.read()
-    path2 = os.path.join(scratch_dir(), f"{os.getpid()}-exp2.{doc}")
+    docs["path"] = _read_raw(path)
+    path2 = os.path.join(scratch_dir(), f"{pid}-exp2.{doc}")
     canopen.export_od(od, path2, doc_type=doc)
-    with open(path2) as f:
-        docs["path+type"] = f.read()
+    docs["path+type"] = _read_raw(path2)
     other = "dcf" if doc == "eds" else "eds"
     # a file name and a directory with more dots than the one in front of the suffix
     ddir = os.path.join(scratch_dir(), "rev1.2")
     os.makedirs(ddir, exist_ok=True)
-    path4 = os.path.join(ddir, f"{os.getpid()}-node9.v2.{doc}")
+    path4 = os.path.join(ddir, f"{pid}-node9.v2.{doc}")
     canopen.export_od(od, path4)
-    with open(path4) as f:
-        docs["path with several dots"] = f.read()
-    path3 = os.path.join(scratch_dir(), f"{os.getpid()}-exp3.{other}")
+    docs["path with several dots"] = _read_raw(path4)
+    # the suffix of the OTHER document type in the directory name and in front of the real suffix:
+    # the document type follows from the suffix (= the end) of the file name only
+    odir = os.path.join(scratch_dir(), f"drive.{other}.d")
+    os.makedirs(odir, exist_ok=True)
+    path5 = os.path.join(odir, f"{pid}-dev.{other}.{doc}")
+    canopen.export_od(od, path5)
+    docs[f"path drive.{other}.d/dev.{other}.{doc}"] = _read_raw(path5)
+    path3 = os.path.join(scratch_dir(), f"{pid}-exp3.{other}")
     canopen.export_od(od, path3, doc_type=doc)       # the suffix is only the default for doc_type
-    with open(path3) as f:
-        docs["path+type, other suffix"] = f.read()
+    docs["path+type, other suffix"] = _read_raw(path3)
+    # file names that are not absolute: a bare name in the current directory, a relative path
+    cwd = os.getcwd()
+    os.makedirs(os.path.join(scratch_dir(), "rel.d"), exist_ok=True)
+    try:
+        os.chdir(scratch_dir())
+        bare = f"{pid}-bare.{doc}"
+        canopen.export_od(od, bare)
+        docs["bare file name in the current directory"] = _read_raw(bare)
+        rel = os.path.join("rel.d", f"{pid}-rel.{doc}")
+        canopen.export_od(od, rel)
+        docs["relative path"] = _read_raw(rel)
+    finally:
+        os.chdir(cwd)
     buf = io.StringIO()
     canopen.export_od(od, buf, doc_type=doc)
     docs["stream"] = buf.getvalue()
@@ -340,9 +419,27 @@ def run_case(case) -> Outcome:
                 nt.add("rel")
     for f in nt:
         _feature_counts[f] += 1
+    # value classes outside the short pools of the shared generator (measured on the dictionary itself)
+    xf = set()
+    for o in before["objects"].values():
+        if o.get("storage") is not None and not o["storage"].isupper():
+            xf.add("x-storage-case")
+        for v in ([o["var"]] if "var" in o else list(o["subs"].values())):
+            if v["factor"] != 1 and v["factor"] not in POOL_FACTORS:
+                xf.add("x-factor")
+            if v["description"] != "" and v["unit"] == "":
+                xf.add("x-description-without-unit")
+            if v["storage_location"] is not None and not v["storage_location"].isupper():
+                xf.add("x-storage-case")
+            if v["data_type"] in rc.REALS and (v["min"] is not None or v["max"] is not None):
+                xf.add("x-real-limit")
+    if doc == "dcf" and before["bitrate"] is not None and before["bitrate"] not in CIA_BITRATES:
+        xf.add("x-bitrate")
+    for f in xf:
+        _feature_counts[f] += 1
     family = case.get("family", "hyp")
-    klass = (f"{family}/{doc}" if family != "hyp" else
-             f"hyp/{route}/{doc}/{dest}/" + ("+".join(sorted(nt)) or "plain"))
+    klass = (f"{family}/{route}/{doc}" if family == "enum/extras" else f"{family}/{doc}" if family != "hyp" else
+             f"hyp/{route}/{doc}/{dest}/" + ("+".join(sorted(nt)) or "plain") + ("/ext" if xf else ""))
     D = []
     # ---- export to every destination
     try:
@@ -350,13 +447,12 @@ def run_case(case) -> Outcome:
     except Exception as e:
         return Outcome(bool(nt), klass, [Discrepancy(f"C14/export-raises/{type(e).__name__}",
                                                      f"export_od raised {type(e).__name__}: {e}")])
-    ref = strip_fileinfo(docs[dest])
     for kind, text in docs.items():
-        if strip_fileinfo(text) != ref:
-            a, b = ref.splitlines(), strip_fileinfo(text).splitlines()
-            diff = next((f"{x!r} vs {y!r}" for x, y in zip(a, b) if x != y), f"{len(a)} vs {len(b)} lines")
+        diff = destination_difference(docs[dest], text)
+        if diff is not None:
             return Outcome(bool(nt), klass, [Discrepancy(
-                "C14/destination", f"document written to {kind} differs from the one written to {dest}: {diff}")])
+                "C14/destination" + diff[0],
+                f"document written to {kind} differs from the one written to {dest}: {diff[1]}")])
     if snapshot(od) != before:
         return Outcome(bool(nt), klass, [Discrepancy("C14/export-mutates", "export_od changed the dictionary")])
     # ---- import the document again
@@ -429,6 +525,102 @@ def _edit_values(od):
     return n
 
 
+# ---- extras: value classes the shared model generator only takes from short pools ------------
+POOL_FACTORS = (0.1, 0.001, 10.0, 2.5, -1.0, 1e-06, 3.0, 0.5, 1000.0)      # em._FACTOR
+CIA_BITRATES = tuple(kb * 1000 for kb in em.STD_BAUD)
+REAL32_MAX = 3.4028234663852886e38
+FACTORS = [0.3048006, 1 / 3, 0.1 + 0.2, 1e-07, 123456789.125, 6.02214076e+23, -0.000123456789,
+           1.0000001, 16777217.0, 2.2250738585072014e-308, 0.01745329251994329, 9.80665]
+REAL_LIMITS = [(-273.15, 1234.56789), (1e-07, 1.0000001), (-0.0, 16777217.0), (-REAL32_MAX, REAL32_MAX),
+               (None, 0.1), (1 / 3, None), (-1.401298464324817e-45, 1.17549435e-38), (2.5, -1.5)]
+STORAGE_WORDS = ["Flash_Bank2", "eeprom", "Ram", "rOM", "persist_comm", "nvm0", "x", "Persist_App"]
+OTHER_KBIT = [1, 5, 33, 40, 83, 100, 200, 400, 666, 999]
+
+
+def _real_spec(dt, x):
+    if x is None:
+        return None
+    if dt == rc.REAL32 and abs(x) > REAL32_MAX:
+        x = math.copysign(REAL32_MAX, x)             # keep the limit inside the type's range
+    return {"k": "real", "v": float(x)}
+
+
+def _used_names(model):
+    used = set()
+    for o in model["objects"]:
+        used.add(o["name"])
+        for m in o.get("members") or []:
+            used.add(o["name"] + "." + m["name"])
+        for nm in o.get("names") or []:
+            used.add(o["name"] + "." + nm)
+    return used
+
+
+def apply_extras(model, extras):
+    """Pure function model x extras -> model (in place).  Each extra replaces one attribute the shared
+    generator draws from a short pool (or never) by a value of the full class; 'sel' picks the target."""
+    for x in extras:
+        k, sel = x["k"], x.get("sel", 0)
+        vars_ = [v for _, v in em.all_vars(model)]
+        if k == "factor":
+            vars_[sel % len(vars_)]["factor"] = x["v"]
+        elif k == "description":
+            v = vars_[sel % len(vars_)]
+            v["description"] = x["v"]
+            if x.get("alone"):
+                v["unit"] = None
+        elif k == "storage":
+            holders = []
+            for o in model["objects"]:
+                holders.append(o)
+                if o["kind"] in ("record", "array"):
+                    holders += o["members"]
+                elif o["kind"] == "compact":
+                    holders.append(o["var"])
+            holders[sel % len(holders)]["storage"] = x["v"]
+        elif k == "reallimits":
+            reals = [v for v in vars_ if v["dt"] in rc.REALS]
+            if reals:
+                v = reals[sel % len(reals)]
+            else:
+                dt = x["dt"]
+                taken = {o["index"] for o in model["objects"]}
+                index = 0x2F00 + sel
+                while index in taken:
+                    index += 1
+                name, used = "real limits", _used_names(model)
+                while name in used:
+                    name += "_"
+                v = _var(dt, default=_real_spec(dt, x["default"]))
+                model["objects"].append({"kind": "var", "index": index, "name": name, "sp": x.get("sp", 0),
+                                         "storage": None, "var": v})
+            v["low"] = _real_spec(v["dt"], x["low"])
+            v["high"] = _real_spec(v["dt"], x["high"])
+        elif k == "bitrate" and model["doc"] == "dcf":
+            com = model["commissioning"]
+            if com is None:
+                com = model["commissioning"] = {"node_id": None, "baudrate": None, "baud_hex": False}
+            com["baudrate"] = x["v"]
+    return model
+
+
+_SEL = st.integers(0, 255)
+_FINITE = st.floats(allow_nan=False, allow_infinity=False)
+_FINITE32 = st.floats(allow_nan=False, allow_infinity=False, width=32)
+_LIMIT = st.one_of(st.none(), _FINITE32, _FINITE,
+                   st.sampled_from([x for pair in REAL_LIMITS for x in pair if x is not None]))
+_WORD = st.one_of(st.sampled_from(STORAGE_WORDS), st.text(em.LETTERS + em.DIGITS + "_", min_size=1, max_size=12))
+_EXTRA = st.one_of(
+    st.builds(lambda s, v: {"k": "factor", "sel": s, "v": v}, _SEL, st.one_of(st.sampled_from(FACTORS), _FINITE)),
+    st.builds(lambda s, v, a: {"k": "description", "sel": s, "v": v, "alone": a}, _SEL, em.FREE_TEXT, st.booleans()),
+    st.builds(lambda s, v: {"k": "storage", "sel": s, "v": v}, _SEL, _WORD),
+    st.builds(lambda s, dt, lo, hi, d: {"k": "reallimits", "sel": s, "dt": dt, "low": lo, "high": hi, "default": d},
+              _SEL, st.sampled_from([rc.REAL32, rc.REAL64]), _LIMIT, _LIMIT, st.one_of(st.none(), _FINITE32)),
+    st.builds(lambda v: {"k": "bitrate", "v": v}, st.one_of(st.sampled_from(OTHER_KBIT), st.integers(1, 1000))),
+)
+_EXTRAS = st.one_of(st.just([]), st.lists(_EXTRA, min_size=1, max_size=5))
+
+
 # ---- enumerated families -------------------------------------------------------------
 def _var(dt, **kw):
     v = {"sub": 0, "name": "", "dt": dt, "access": "rw", "pdo": 0, "default": None, "value": None,
@@ -487,6 +679,48 @@ def enum_cases(tier):
                "dest": DESTS[n % 4], "family": "enum/node", "edit": n % 2 == 0}
 
 
+def enum_extras(tier):
+    """Long-mantissa factors, description without unit, mixed-case storage words (variable, record, array,
+    member), REAL32/REAL64 limits, bit rates other than the 8 CiA ones - code-built and imported."""
+    n_main = 24 if tier == "quick" else 96
+    for j in range(n_main):
+        fac = FACTORS[j % len(FACTORS)]
+        lo, hi = REAL_LIMITS[j % len(REAL_LIMITS)]
+        word = STORAGE_WORDS[j % len(STORAGE_WORDS)]
+        word2 = STORAGE_WORDS[(j * 3 + 1) % len(STORAGE_WORDS)]
+        rdt = rc.REAL32 if j % 2 else rc.REAL64
+        a = _var(rc.INTEGER16, factor=fac, description=f"scaled by {j}", default={"k": "int", "v": -j})
+        b = _var(rdt, low=_real_spec(rdt, lo), high=_real_spec(rdt, hi), default=_real_spec(rdt, 0.5 - j),
+                 unit="K" if j % 3 == 0 else None, factor=FACTORS[(j + 5) % len(FACTORS)] if j % 4 == 0 else None)
+        kind = "record" if j % 2 else "array"
+        members = [_var(rc.UNSIGNED8, sub=0, name="count", access="ro", default={"k": "int", "v": 2}),
+                   _var(rc.UNSIGNED16, sub=1, name="m 1", storage=word2, description=f"member {j}",
+                        factor=FACTORS[(j + 7) % len(FACTORS)]),
+                   _var(rc.UNSIGNED16, sub=2, name="m 2", unit="rpm")]
+        objs = [{"kind": "var", "index": 0x2100, "name": "scaled", "sp": 0, "storage": word, "var": a},
+                {"kind": "var", "index": 0x6100, "name": "temperature", "sp": 0, "storage": None, "var": b},
+                {"kind": kind, "index": 0x1A00 + j, "name": f"{kind} {j}", "sp": 0, "storage": word2 if j % 3 else word,
+                 "members": members}]
+        for doc in ("eds", "dcf"):
+            for route in ("code", "text"):
+                com = None
+                if doc == "dcf" or route == "code":
+                    com = {"node_id": 1 + j if j % 5 else None, "baudrate": OTHER_KBIT[j % len(OTHER_KBIT)],
+                           "baud_hex": False}
+                yield {"model": _model(objs, doc="dcf" if route == "code" else doc, commissioning=com,
+                                       sp=0 if j < 8 else 1000 + j),
+                       "route": route, "node_arg": None, "doc": doc, "dest": DESTS[(j + (doc == "dcf")) % 4],
+                       "family": "enum/extras", "edit": route == "code" and j % 2 == 0}
+    # every bit rate 1..1000 kbit/s that is not one of the 8 CiA rates (quick: a sample)
+    rates = OTHER_KBIT if tier == "quick" else [k for k in range(1, 1001) if k not in em.STD_BAUD]
+    for n, k in enumerate(rates):
+        v = _var(rc.UNSIGNED8, default={"k": "int", "v": n % 256})
+        o = {"kind": "var", "index": 0x2000, "name": "u", "sp": 0, "storage": None, "var": v}
+        com = {"node_id": 1 + n % 127 if n % 3 else None, "baudrate": k, "baud_hex": False}
+        yield {"model": _model([o], commissioning=com), "route": "text" if n % 2 else "code", "node_arg": None,
+               "doc": "dcf", "dest": DESTS[n % 4], "family": "enum/extras"}
+
+
 @st.composite
 def cases(draw):
     flags = draw(st.integers(0, 0xFFF))
@@ -499,6 +733,7 @@ def cases(draw):
         node_arg = draw(st.one_of(st.none(), st.integers(1, 127)))
     if (flags >> 8) & 0xF == 0xF and model["comments"]:
         model["comments"] = model["comments"] + [""]               # G1 (reported), excluded + counted
+    apply_extras(model, draw(_EXTRAS))
     return {"model": model, "route": route, "node_arg": node_arg,
             "doc": "dcf" if (flags >> 3) & 1 else "eds",
             "dest": DESTS[(flags >> 4) & 3], "family": "hyp", "edit": route == "code" and bool((flags >> 6) & 1)}
@@ -508,6 +743,9 @@ def search(ctx):
     ctx.enumerate(enum_cases(ctx.tier),
                   "boundary values of every integer type as default/parameter value/limits x eds/dcf; every "
                   "sub-index 1..0xFE in records and arrays; node ids 1..127 x bit rates")
+    ctx.enumerate(enum_extras(ctx.tier),
+                  "long-mantissa factors, description without unit, mixed-case storage words, REAL32/REAL64 "
+                  "limits, bit rates other than the 8 CiA ones x eds/dcf x code/text")
     total, chunk = (16000, 500) if ctx.tier == "thorough" else (1100, 275)
     hyp_chunks(ctx, cases(), total, chunk)
     if _feature_counts and ctx.shard == 0:
